@@ -467,7 +467,7 @@ func execTx(st *account.AccountDB, w *world, tr *vutil.Trace, stats map[string]i
 	st.Prepare(curTx, common.Hash{}, i)
 	tr.Emit(map[string]interface{}{"event": "TxBegin", "tx": i + 1, "state": w.state(), "access": w.access(),
 		"logs": w.logIDs(st.GetLogs(curTx))})
-	rec := eu.NewRecorder(tr, eu.Options{Frames: true, MaxSteps: 1, MaxFaults: 1,
+	rec := eu.NewRecorder(tr, eu.Options{Frames: true, MaxSteps: 1, MaxFaults: 1, HardSteps: 3000000,
 		StepFilter: func(int, byte) bool { return false }})
 	obs := &observer{Recorder: rec, w: w, tr: tr, lastExit: map[int]string{}, exited: map[int]bool{}, stats: stats}
 	rec.Opt.EnterExtra = func(f *vm.VerifFrame) map[string]interface{} {
@@ -487,6 +487,7 @@ func execTx(st *account.AccountDB, w *world, tr *vutil.Trace, stats map[string]i
 	vm.VerifSetObserver(obs)
 	rec.BeginRun(i + 1)
 	evm := eu.NewEVM(st, height, txGas)
+	rec.Cancel = evm.Cancel
 	tr.Emit(map[string]interface{}{"event": "Before", "depth": 0, "op": -1, "self": 0, "ro": false, "state": w.state(),
 		"logs": w.logIDs(st.GetLogs(curTx))})
 	var (
@@ -519,6 +520,12 @@ func execTx(st *account.AccountDB, w *world, tr *vutil.Trace, stats map[string]i
 	tr.Emit(map[string]interface{}{"event": "TxEnd", "tx": i + 1, "ok": err == nil, "receipt": w.logIDs(st.GetLogs(curTx)),
 		"returned": w.logIDs(retLog), "prev": prev})
 	stats["txs"]++
+	if rec.Cancelled {
+		vutil.Fatalf("a transaction ran for more than 3 000 000 steps with %d gas", txGas)
+	}
+	if tr.N > 3000000 {
+		vutil.Fatalf("trace budget exceeded")
+	}
 	if err != nil {
 		stats["failed_txs"]++
 	}
